@@ -66,7 +66,9 @@ type genumCase struct {
 	n      int     // number of enum values
 	under  string  // underlying type of the enum
 	traits []traitCol
-	shape  string // plain | dup (deprecated duplicate of the last value, no trait columns) | duptraits | two (two enum types)
+	shape  string // plain | dup (deprecated duplicate of the last value, no trait columns) | duptraits | two (two enum types) | dup2 | alias
+	only1  bool   // shape two: the run under test asks for the first type only
+	prev   string // "" | allon | moretypes: a previous run with a LONGER output precedes the run under test in the same package
 	bad    string // out-of-domain malformation ("" = in domain)
 }
 
@@ -98,6 +100,12 @@ func (c *genumCase) header() string {
 		}
 	}
 	h := fmt.Sprintf("case gg genum o=%s n=%d under=%s traits=%s shape=%s", o, c.n, c.under, strings.Join(tr, ","), c.shape)
+	if c.only1 {
+		h += " only1=t"
+	}
+	if c.prev != "" {
+		h += " prev=" + c.prev
+	}
 	if c.bad != "" {
 		h += " bad=" + c.bad
 	}
@@ -116,7 +124,7 @@ func kv(ws []string) map[string]string {
 
 func parseGenum(ws []string) (*genumCase, error) {
 	m := kv(ws)
-	c := &genumCase{under: m["under"], shape: m["shape"], bad: m["bad"]}
+	c := &genumCase{under: m["under"], shape: m["shape"], bad: m["bad"], only1: m["only1"] == "t", prev: m["prev"]}
 	if len(m["o"]) != 5 {
 		return nil, fmt.Errorf("bad options")
 	}
@@ -143,7 +151,7 @@ func parseGenum(ws []string) (*genumCase, error) {
 		return nil, fmt.Errorf("bad underlying type")
 	}
 	switch c.shape {
-	case "plain", "dup", "duptraits", "two", "dup2":
+	case "plain", "dup", "duptraits", "two", "dup2", "alias":
 	default:
 		return nil, fmt.Errorf("bad shape")
 	}
@@ -152,11 +160,19 @@ func parseGenum(ws []string) (*genumCase, error) {
 
 func traitName(j int) string { return fmt.Sprintf("Tr%d", j) }
 
-func (c *genumCase) typeNames() []string {
+func (c *genumCase) allTypeNames() []string {
 	if c.shape == "two" {
 		return []string{"Alpha", "Beta"}
 	}
 	return []string{"Alpha"}
+}
+
+// typeNames: the types the run under test is asked for.
+func (c *genumCase) typeNames() []string {
+	if c.only1 {
+		return c.allTypeNames()[:1]
+	}
+	return c.allTypeNames()
 }
 
 // traitNames: what the generator should see when traits are inspected.
@@ -212,7 +228,7 @@ func (c *genumCase) source(pkg string) string {
 	for _, d := range dl {
 		b.WriteString(d + "\n")
 	}
-	for ti, tn := range c.typeNames() {
+	for ti, tn := range c.allTypeNames() {
 		fmt.Fprintf(&b, "type %s %s\n\nconst (\n", tn, c.under)
 		pre := []string{"A", "B"}[ti]
 		for i := 0; i < c.n; i++ {
@@ -249,6 +265,18 @@ func (c *genumCase) source(pkg string) string {
 				}
 			}
 			fmt.Fprintf(&b, "\t// Deprecated: use the other name.\n\t%s = %s\n", strings.Join(names, ", "), strings.Join(vals, ", "))
+		}
+		if c.shape == "alias" && ti == 0 {
+			// plain aliases without a trait row of their own: `AAlias<i>` sorts before `AV<i>` and so
+			// becomes the primary name of its value, `AZed<i>` sorts after it; the last value keeps
+			// a single name
+			for k := 1; k < c.n-1; k++ {
+				if k%3 == 0 {
+					fmt.Fprintf(&b, "\tAZed%d = AV%d\n", k, k)
+				} else {
+					fmt.Fprintf(&b, "\tAAlias%d = AV%d\n", k, k)
+				}
+			}
 		}
 		if c.shape == "dup2" && ti == 0 {
 			// two groups of duplicated values, none deprecated (the generator has to pick primaries)
@@ -345,8 +373,10 @@ var gerrTypes = map[string]struct{ goType, imp, decl string }{
 
 type gerrorCase struct {
 	skip   bool
-	custom bool // with skip: the definition file has hand-written Convert/ConvertS
-	two    bool // two error types in one file
+	custom bool   // with skip: the definition file has hand-written Convert/ConvertS
+	two    bool   // two error types in one file
+	only1  bool   // with two: the run under test asks for the first type only
+	prev   string // "" | noskip | moretypes: previous, longer output in the same package
 	fields []gerrField
 	bad    string
 }
@@ -357,6 +387,12 @@ func (c *gerrorCase) header() string {
 		fs[i] = f.name + ":" + f.typ + ":" + f.tag
 	}
 	h := fmt.Sprintf("case gg gerror skip=%s custom=%s two=%s fields=%s", tf(c.skip), tf(c.custom), tf(c.two), strings.Join(fs, ","))
+	if c.only1 {
+		h += " only1=t"
+	}
+	if c.prev != "" {
+		h += " prev=" + c.prev
+	}
 	if c.bad != "" {
 		h += " bad=" + c.bad
 	}
@@ -365,7 +401,7 @@ func (c *gerrorCase) header() string {
 
 func parseGerror(ws []string) (*gerrorCase, error) {
 	m := kv(ws)
-	c := &gerrorCase{skip: m["skip"] == "t", custom: m["custom"] == "t", two: m["two"] == "t", bad: m["bad"]}
+	c := &gerrorCase{skip: m["skip"] == "t", custom: m["custom"] == "t", two: m["two"] == "t", bad: m["bad"], only1: m["only1"] == "t", prev: m["prev"]}
 	if m["fields"] != "" {
 		for _, f := range strings.Split(m["fields"], ",") {
 			p := strings.SplitN(f, ":", 3)
@@ -381,11 +417,18 @@ func parseGerror(ws []string) (*gerrorCase, error) {
 	return c, nil
 }
 
-func (c *gerrorCase) typeNames() []string {
+func (c *gerrorCase) allTypeNames() []string {
 	if c.two {
 		return []string{"AlphaError", "BetaError"}
 	}
 	return []string{"AlphaError"}
+}
+
+func (c *gerrorCase) typeNames() []string {
+	if c.only1 {
+		return c.allTypeNames()[:1]
+	}
+	return c.allTypeNames()
 }
 
 func (c *gerrorCase) source(pkg string) string {
@@ -422,7 +465,8 @@ func (c *gerrorCase) source(pkg string) string {
 	for _, d := range dl {
 		b.WriteString(d + "\n")
 	}
-	for _, tn := range c.typeNames() {
+	for ti, tn := range c.allTypeNames() {
+		target := ti < len(c.typeNames())
 		fmt.Fprintf(&b, "type %s struct {\n", tn)
 		if c.bad != "noembed" {
 			b.WriteString("\tgerror.GError\n")
@@ -453,10 +497,10 @@ func (c *gerrorCase) source(pkg string) string {
 			fmt.Fprintf(&b, "\t%s %s%s\n", f.name, gerrTypes[f.typ].goType, tag)
 		}
 		b.WriteString("}\n\n")
-		if c.bad == "" {
+		if c.bad == "" && target {
 			fmt.Fprintf(&b, "var Err%s = gerror.FactoryOf(&%s{GError: gerror.GError{Name: %q, Message: \"m\"}})\n\n", tn, tn, "Err"+tn)
 		}
-		if c.skip && c.custom {
+		if c.skip && c.custom && target {
 			fmt.Fprintf(&b, `func (e *%[1]s) Convert(err error) gerror.Error {
 	if gerr, ok := err.(gerror.Error); ok {
 		return gerr
@@ -508,6 +552,8 @@ var gsortTypes = map[string]struct{ goType, imp, decl string }{
 type gsortCase struct {
 	fields []gsortField
 	two    bool
+	only1  bool
+	prev   string // "" | moretypes
 	bad    string
 }
 
@@ -517,6 +563,12 @@ func (c *gsortCase) header() string {
 		fs[i] = f.name + ":" + f.typ + ":" + strings.Join(f.tags, "+")
 	}
 	h := fmt.Sprintf("case gg gsort two=%s fields=%s", tf(c.two), strings.Join(fs, ";"))
+	if c.only1 {
+		h += " only1=t"
+	}
+	if c.prev != "" {
+		h += " prev=" + c.prev
+	}
 	if c.bad != "" {
 		h += " bad=" + c.bad
 	}
@@ -525,7 +577,7 @@ func (c *gsortCase) header() string {
 
 func parseGsort(ws []string) (*gsortCase, error) {
 	m := kv(ws)
-	c := &gsortCase{two: m["two"] == "t", bad: m["bad"]}
+	c := &gsortCase{two: m["two"] == "t", bad: m["bad"], only1: m["only1"] == "t", prev: m["prev"]}
 	if m["fields"] != "" {
 		for _, f := range strings.Split(m["fields"], ";") {
 			p := strings.SplitN(f, ":", 3)
@@ -545,11 +597,18 @@ func parseGsort(ws []string) (*gsortCase, error) {
 	return c, nil
 }
 
-func (c *gsortCase) typeNames() []string {
+func (c *gsortCase) allTypeNames() []string {
 	if c.two {
 		return []string{"Rec", "Rec2"}
 	}
 	return []string{"Rec"}
+}
+
+func (c *gsortCase) typeNames() []string {
+	if c.only1 {
+		return c.allTypeNames()[:1]
+	}
+	return c.allTypeNames()
 }
 
 // sorters: sorter type name -> element is pointer; for type index ti (the second struct gets a
@@ -592,7 +651,7 @@ func (c *gsortCase) source(pkg string) string {
 	for d := range decls {
 		b.WriteString(d + "\n")
 	}
-	for ti, tn := range c.typeNames() {
+	for ti, tn := range c.allTypeNames() {
 		fmt.Fprintf(&b, "type %s struct {\n", tn)
 		for _, f := range c.fields {
 			tag := ""
